@@ -6,6 +6,7 @@ import (
 	"flag"
 	"fmt"
 	"io"
+	"log"
 	"math/rand"
 	"net"
 	"os"
@@ -87,7 +88,37 @@ func within(d time.Duration, f func()) bool {
 	}
 }
 
+// countingLog counts the lines of the library's debug log that say it evicted a receiver of control messages because it
+// did not take a message within 500 ms ("Receiver timeout!").
+type countingLog struct {
+	mu sync.Mutex
+	n  int
+}
+
+func (c *countingLog) Write(p []byte) (int, error) {
+	if bytes.Contains(p, []byte("Receiver timeout!")) {
+		c.mu.Lock()
+		c.n++
+		c.mu.Unlock()
+	}
+	return len(p), nil
+}
+
+// runScenario runs one schedule with the library's debug log watched: a receiver evicted although the schedule has no
+// stalled receiver means that the process was starved of CPU for half a second - what follows says nothing about C14.
 func runScenario(sc scen) []rec.Event {
+	cl := &countingLog{}
+	os.Setenv("ARDOP_DEBUG", "1")
+	log.SetFlags(0)
+	log.SetOutput(cl)
+	evs := runScenarioWatched(sc)
+	cl.mu.Lock()
+	n := cl.n
+	cl.mu.Unlock()
+	return append(evs, rec.Event{"op": "Starved", "n": n})
+}
+
+func runScenarioWatched(sc scen) []rec.Event {
 	var evs []rec.Event
 	add := func(ev rec.Event) { evs = append(evs, ev) }
 	sim, host := NewSerialSim()
